@@ -90,6 +90,41 @@
    of the two memory fields) hold for the declared fields
    (C05_memory_fields_fit).
 
+   (g) IN GAME TERMS (theories/L4/Plays.v; GenProofs/RabinWins.v; the
+   analogue of C02_implementation_wins_the_game).  The implementation is read
+   as a strategy over the plays of the BASE arena, its memory m = _hold * G +
+   _goal being a function of the history; at every step it takes the first
+   pair (y', m') the synthesized action allows (Mealy: for the next
+   environment value of the play; Moore: for all of them).  L4/Plays.v has
+   infinite plays and total strategies only, so a blocked run is not a
+   shorter play: where the action allows nothing the strategy returns 0, the
+   play goes on, and [RabinWins.blocked_at ... p i] records that position i
+   of play p is blocked (C05_blocked_at_means_no_allowed_step spells it out);
+   nothing is claimed after the first blocked position.
+     C05_play_is_won_or_blocks_with_stale_hold: EVERY play from a state of
+       the winning region consistent with the strategy, for any initial
+       memory in range (the construction's is _hold = none, _goal = 0),
+       EITHER (a) is never blocked while the environment keeps its action,
+       is won (win_rabin: the component keeps its action as the mode obliges
+       and, if the environment keeps its action forever, ONE persistence
+       predicate holds from some point on and EVERY recurrence predicate
+       holds infinitely often) and stays in the winning region for as long
+       as the environment has kept its action, OR (b) reaches - through
+       allowed steps, the environment having kept its action - a first
+       blocked position, which is winning, has its memory in range and is in
+       class F12;
+     C05_implementation_wins_unless_hold_goes_stale: if no play consistent
+       with the strategy reaches a position of class F12, the implementation
+       WINS the game from the state (comp_wins ... win_rabin);
+     C05_implementation_wins_if_traps_cover: so it does if every winning
+       state lies in y_{k,i} of its level for every i; and
+     C05_implementation_wins_with_one_persistence_set: ALWAYS when there is
+       exactly one persistence predicate (class F12 needs two);
+     C05_implementation_wins_example: the hypotheses are met by the game of
+       C05_liveness_example.
+   (a)-(f) combined; depends on Classical_Prop.classic (liveness, and the
+   choice between "some position is blocked" and "none is").
+
    The check reports any blocking state outside class F12, and any failure
    of (a), memory ranges, or liveness found by the closed-loop search, as a
    violation. *)
@@ -105,6 +140,8 @@ From OmegaGP Require Import TransducerModel TransducerBridge StreettTProofs Rabi
   RabinTProofs2 StreettNB2 StreettClosure1 RabinClosure2 RabinLive2.
 From Omega Require Import L4.GameSpec.
 From OmegaGP Require Import RabinIter1 RabinNB3 RabinUnrepaired.
+From Omega Require Import L4.Plays.
+From OmegaGP Require RabinWins.
 Local Open Scope bool_scope.
 
 Theorem C05_construction_is_translated :
@@ -406,6 +443,169 @@ Proof.
   intros h Hh [Hlt Hn]. assert (h = 0) by lia. subst h. vm_compute in Hn. discriminate Hn.
 Qed.
 
+(* (g) in game terms.  [RabinWins.impl_strategy ... h0 j0]: the implementation
+   as a strategy (first allowed pair, memory = function of the history,
+   initial memory _hold = h0, _goal = j0); [RabinWins.mseq ... p i]: the
+   memory at position i of play p; [RabinWins.blocked_at ... p i]: position i
+   is blocked, that is: *)
+Theorem C05_blocked_at_means_no_allowed_step :
+  forall nc nx ny (E S : bdd) (holds goals : list bdd) (moore plus_one : bool) fuel H G c h0 j0
+         (p : play) i,
+  let sol := Gr1Gen.solve_rabin_game nc nx ny E S holds goals moore plus_one fuel in
+  let L := lift nc nx ny (H * G) in
+  let A := rabin_action nc nx ny H G (L E) (L S) (map L holds) (map L goals) moore plus_one
+             (map L (fst (fst sol))) (map (map L) (snd (fst sol)))
+             (map (map (map (map L))) (snd sol)) in
+  let m := RabinWins.mseq nc nx ny E S holds goals moore plus_one fuel H G c h0 j0 p i in
+  RabinWins.blocked_at nc nx ny E S holds goals moore plus_one fuel H G c h0 j0 p i <->
+  forall yb' m', yb' < ny -> m' < H * G ->
+    (if moore
+     then forallb (fun x'' => A (ev (H * G) c (fst (p i)) (snd (p i)) m x'' yb' m')) (seq 0 nx)
+     else A (ev (H * G) c (fst (p i)) (snd (p i)) m (fst (p (Datatypes.S i))) yb' m')) = false.
+Proof.
+  intros nc nx ny E S holds goals moore plus_one fuel H G c h0 j0 p i sol L A m.
+  exact (RabinWins.blocked_here_spec nc nx ny E S holds goals moore plus_one fuel H G c
+           (fst (p i)) (snd (p i)) m (fst (p (Datatypes.S i)))).
+Qed.
+
+Theorem C05_play_is_won_or_blocks_with_stale_hold :
+  forall nc nx ny (E S : bdd) (holds goals : list bdd) (moore plus_one : bool) fuel H G c h0 j0
+         (p : play),
+  NV nc nx ny <= fuel -> Forall spred holds -> Forall spred goals ->
+  length goals <= G -> length holds < H -> 0 < length goals -> c < nc ->
+  h0 <= length holds -> j0 < length goals ->   (* initial memory in range; the construction's
+                                                  own: h0 = length holds ("none"), j0 = 0 *)
+  let sol := Gr1Gen.solve_rabin_game nc nx ny E S holds goals moore plus_one fuel in
+  let zk := fst (fst sol) in
+  let yki := snd (fst sol) in
+  let blocked := RabinWins.blocked_at nc nx ny E S holds goals moore plus_one fuel H G c h0 j0 p in
+  let mem := RabinWins.mseq nc nx ny E S holds goals moore plus_one fuel H G c h0 j0 p in
+  inrange nx ny p ->
+  cconsistent (RabinWins.impl_strategy nc nx ny E S holds goals moore plus_one fuel H G c h0 j0) p ->
+  last zk bfalse (stv c (p 0)) = true ->                  (* from a state of the winning region *)
+  (* (a) never blocked while the environment keeps its action; won; stays winning *)
+  ((forall i, (forall t, t < i -> Eat c E p t) -> ~ blocked i) /\
+   win_rabin c E S holds goals plus_one p /\
+   (forall i, (forall t, t < i -> Eat c E p t) -> last zk bfalse (stv c (p i)) = true))
+  \/
+  (* (b) a first blocked position: winning, memory in range, in class F12 *)
+  (exists i, (forall t, t < i -> Eat c E p t /\ ~ blocked t) /\ blocked i /\
+     last zk bfalse (stv c (p i)) = true /\
+     mem i / G <= length holds /\ mem i mod G < length goals /\
+     (mem i / G < length holds /\
+      nth (mem i / G) (nth (fidx zk (stv c (p i))) yki []) bfalse (stv c (p i)) = false)).
+Proof.
+  intros nc nx ny E S holds goals moore plus_one fuel H G c h0 j0 p
+         Hf Sh Sg HnG HnH Hg Hc Hh0 Hj0 sol zk yki blocked mem Hr Hcons Hw.
+  exact (RabinWins.impl_play_wins_or_blocks nc nx ny E S holds goals moore plus_one fuel
+           Hf Sh Sg H G HnG HnH Hg c Hc h0 j0 Hh0 Hj0 p Hr Hcons Hw).
+Qed.
+
+Theorem C05_implementation_wins_unless_hold_goes_stale :
+  forall nc nx ny (E S : bdd) (holds goals : list bdd) (moore plus_one : bool) fuel H G c h0 j0 s,
+  NV nc nx ny <= fuel -> Forall spred holds -> Forall spred goals ->
+  length goals <= G -> length holds < H -> 0 < length goals -> c < nc ->
+  h0 <= length holds -> j0 < length goals ->
+  let sol := Gr1Gen.solve_rabin_game nc nx ny E S holds goals moore plus_one fuel in
+  let zk := fst (fst sol) in
+  let yki := snd (fst sol) in
+  fst s < nx -> snd s < ny -> last zk bfalse (stv c s) = true ->
+  (* no play from s consistent with the implementation reaches - through
+     allowed steps, the environment keeping its action - a position of class F12 *)
+  (forall p, inrange nx ny p -> p 0 = s ->
+     cconsistent (RabinWins.impl_strategy nc nx ny E S holds goals moore plus_one fuel H G c h0 j0) p ->
+     let blocked := RabinWins.blocked_at nc nx ny E S holds goals moore plus_one fuel H G c h0 j0 p in
+     let mem := RabinWins.mseq nc nx ny E S holds goals moore plus_one fuel H G c h0 j0 p in
+     forall i, (forall t, t < i -> Eat c E p t /\ ~ blocked t) ->
+       ~ (mem i / G < length holds /\
+          nth (mem i / G) (nth (fidx zk (stv c (p i))) yki []) bfalse (stv c (p i)) = false)) ->
+  comp_wins nx ny moore (win_rabin c E S holds goals plus_one) s.
+Proof.
+  intros nc nx ny E S holds goals moore plus_one fuel H G c h0 j0 s
+         Hf Sh Sg HnG HnH Hg Hc Hh0 Hj0 sol zk yki H1 H2 Hw Hns.
+  exact (RabinWins.implementation_wins_unless_stale nc nx ny E S holds goals moore plus_one fuel
+           Hf Sh Sg H G HnG HnH Hg c Hc h0 j0 Hh0 Hj0 s H1 H2 Hw Hns).
+Qed.
+
+Theorem C05_implementation_wins_if_traps_cover :
+  forall nc nx ny (E S : bdd) (holds goals : list bdd) (moore plus_one : bool) fuel H G c s,
+  NV nc nx ny <= fuel -> Forall spred holds -> Forall spred goals ->
+  length goals <= G -> length holds < H -> 0 < length goals -> c < nc ->
+  let sol := Gr1Gen.solve_rabin_game nc nx ny E S holds goals moore plus_one fuel in
+  let zk := fst (fst sol) in
+  let yki := snd (fst sol) in
+  fst s < nx -> snd s < ny -> last zk bfalse (stv c s) = true ->
+  (forall x yb h, x < nx -> yb < ny -> h < length holds -> last zk bfalse (sv c x yb) = true ->
+     nth h (nth (fidx zk (sv c x yb)) yki []) bfalse (sv c x yb) = true) ->
+  comp_wins nx ny moore (win_rabin c E S holds goals plus_one) s.
+Proof.
+  intros nc nx ny E S holds goals moore plus_one fuel H G c s
+         Hf Sh Sg HnG HnH Hg Hc sol zk yki H1 H2 Hw Hcov.
+  exact (RabinWins.implementation_wins_if_traps_cover nc nx ny E S holds goals moore plus_one fuel
+           Hf Sh Sg H G HnG HnH Hg c Hc (length holds) 0 (le_n _) Hg s H1 H2 Hw Hcov).
+Qed.
+
+Theorem C05_implementation_wins_with_one_persistence_set :
+  forall nc nx ny (E S : bdd) (holds goals : list bdd) (moore plus_one : bool) fuel H G c s,
+  NV nc nx ny <= fuel -> Forall spred holds -> Forall spred goals ->
+  length goals <= G -> length holds < H -> 0 < length goals -> c < nc ->
+  length holds = 1 ->
+  fst s < nx -> snd s < ny ->
+  last (fst (fst (Gr1Gen.solve_rabin_game nc nx ny E S holds goals moore plus_one fuel))) bfalse
+    (stv c s) = true ->
+  comp_wins nx ny moore (win_rabin c E S holds goals plus_one) s.
+Proof.
+  intros nc nx ny E S holds goals moore plus_one fuel H G c s Hf Sh Sg HnG HnH Hg Hc H1p H1 H2 Hw.
+  exact (RabinWins.implementation_wins_one_persistence nc nx ny E S holds goals moore plus_one fuel
+           Hf Sh Sg H G HnG HnH Hg c Hc (length holds) 0 (le_n _) Hg s H1p H1 H2 Hw).
+Qed.
+
+(* non-vacuity of (g): the game of C05_liveness_example meets the hypotheses
+   of C05_implementation_wins_if_traps_cover at the state (0, 0) - so the
+   synthesized implementation wins it there *)
+Example C05_implementation_wins_example :
+  let E : bdd := fun v => true in
+  let S : bdd := fun v => Nat.eqb (vyp v) (vy v) in
+  let P : bdd := fun v => true in
+  let R : bdd := fun v => true in
+  let sol := Gr1Gen.solve_rabin_game 1 1 2 E S [P] [R] false false 5 in
+  (NV 1 1 2 <= 5 /\ Forall spred [P] /\ Forall spred [R] /\
+   length [R] <= 1 /\ length [P] < 2 /\ 0 < length [R] /\
+   last (fst (fst sol)) bfalse (stv 0 (0, 0)) = true /\
+   (forall x yb h, x < 1 -> yb < 2 -> h < length [P] ->
+      last (fst (fst sol)) bfalse (sv 0 x yb) = true ->
+      nth h (nth (fidx (fst (fst sol)) (sv 0 x yb)) (snd (fst sol)) []) bfalse (sv 0 x yb) = true))
+  /\ comp_wins 1 2 false (win_rabin 0 E S [P] [R] false) (0, 0).
+Proof.
+  cbv zeta.
+  set (E := fun _ : V => true). set (S := fun v => Nat.eqb (vyp v) (vy v)).
+  set (P := fun _ : V => true).
+  assert (Hhyp : NV 1 1 2 <= 5 /\ Forall spred [P] /\ Forall spred [P] /\
+                 length [P] <= 1 /\ length [P] < 2 /\ 0 < length [P] /\
+                 last (fst (fst (Gr1Gen.solve_rabin_game 1 1 2 E S [P] [P] false false 5))) bfalse
+                   (stv 0 (0, 0)) = true /\
+                 (forall x yb h, x < 1 -> yb < 2 -> h < length [P] ->
+                    last (fst (fst (Gr1Gen.solve_rabin_game 1 1 2 E S [P] [P] false false 5)))
+                      bfalse (sv 0 x yb) = true ->
+                    nth h (nth (fidx (fst (fst (Gr1Gen.solve_rabin_game 1 1 2 E S [P] [P] false
+                                                  false 5))) (sv 0 x yb))
+                             (snd (fst (Gr1Gen.solve_rabin_game 1 1 2 E S [P] [P] false false 5)))
+                             []) bfalse (sv 0 x yb) = true)).
+  { split; [vm_compute; repeat constructor|].
+    split; [repeat constructor; intros v; reflexivity|].
+    split; [repeat constructor; intros v; reflexivity|].
+    split; [cbn; lia|]. split; [cbn; lia|]. split; [cbn; lia|].
+    split; [vm_compute; reflexivity|].
+    intros x yb h Hx Hyb Hh _. cbn [length] in Hh.
+    assert (x = 0) by lia. assert (h = 0) by lia. subst x h.
+    assert (Hy : yb = 0 \/ yb = 1) by lia.
+    destruct Hy as [-> | ->]; vm_compute; reflexivity. }
+  split; [exact Hhyp|].
+  destruct Hhyp as [Hf [Sh [Sg [HnG [HnH [Hg [Hw Hcov]]]]]]].
+  exact (C05_implementation_wins_if_traps_cover 1 1 2 E S [P] [P] false false 5 2 1 0 (0, 0)
+           Hf Sh Sg HnG HnH Hg (le_n 1) (le_n 1) (le_S _ _ (le_n 1)) Hw Hcov).
+Qed.
+
 (* the game of the former witness of finding F3 (x, y Boolean, plus_one,
    Mealy); base state x = 1, y = 0 (extended component value 6 = y 0, memory
    _hold = none (1), _goal = 0) *)
@@ -546,6 +746,12 @@ Print Assumptions C05_dead_end_has_step.
 Print Assumptions C05_dead_end_steps_break_env.
 Print Assumptions C05_dead_end_in_extended_arena.
 Print Assumptions C05_blocks_only_example.
+Print Assumptions C05_blocked_at_means_no_allowed_step.
+Print Assumptions C05_play_is_won_or_blocks_with_stale_hold.
+Print Assumptions C05_implementation_wins_unless_hold_goes_stale.
+Print Assumptions C05_implementation_wins_if_traps_cover.
+Print Assumptions C05_implementation_wins_with_one_persistence_set.
+Print Assumptions C05_implementation_wins_example.
 Print Assumptions C05_repaired_dead_end_has_step.
 Print Assumptions C05_refuted_unrepaired_dead_end.
 Print Assumptions C05_refuted_stale_hold.
